@@ -253,9 +253,10 @@ func init() {
 									np[pi] = alt
 									obs, pts := c08run(w, cfg, np)
 									c.Distinct("states", cfg.id+"|"+fmt.Sprint(np))
+									c.Distinct("nontrivial", cfg.id+"|"+fmt.Sprint(np))
 									c.Add("transitions", int64(len(pts)))
 									c.Count("executions")
-									c.Count("evaluations_override")
+									c.Count("evaluations_extra")
 									c.Distinct("outcomes", cfg.id+"|"+obs.key())
 									if obs.key() != base.key() {
 										// replay twice before believing it
@@ -361,7 +362,7 @@ func init() {
 						br := w.Build(files)
 						c.Distinct("nontrivial", c.ID)
 						c.Count("key_permutations")
-						c.Count("evaluations_override")
+						c.Count("evaluations_extra")
 						if br.Output != getRef() {
 							c.Violation("key-order-dependent:"+m.id, fmt.Sprintf("reordering the keys of %s (permutation %v) changes the generated file: %s", m.id, p, firstDiff(getRef(), br.Output)), FilesMap(files), nil)
 						}
@@ -377,7 +378,7 @@ func init() {
 									files := []File{{"c.yaml", cfg.YAML()}}
 									br := w.Build(files)
 									c.Count("key_permutations")
-									c.Count("evaluations_override")
+									c.Count("evaluations_extra")
 									if br.Output != getRef() {
 										c.Violation("key-order-dependent:"+m.id+"+"+m2.id, "reordering keys changes the generated file: "+firstDiff(getRef(), br.Output), FilesMap(files), nil)
 									}
@@ -436,7 +437,7 @@ func init() {
 						k := fmt.Sprintf("%d|%s|%s", code, Sha(string(out)), Sha(string(b)))
 						seen[k] = label + "\n" + string(out)
 						c.Count("process_runs")
-						c.Count("evaluations_override")
+						c.Count("evaluations_extra")
 					}
 					for ei, env := range envs {
 						for _, cwd := range []string{dir, "/"} {
